@@ -82,4 +82,29 @@ def values {κ ν : Type} (d : List (κ × ν)) : List ν := d.map (·.2)
 /-- `s[:-n]` -/
 def dropLastN {α : Type} (n : Nat) (s : List α) : List α := s.take (s.length - n)
 
+/-- `urllib.parse.urlparse(v).scheme`: the oracle's answer, `ValueError` when the library raises it -/
+def urlScheme (x : Hdr.Ext) (v : Str) : Except Py.Exc Str :=
+  match x.urlScheme v with
+  | some s => .ok s
+  | none => .error .ValueError
+
+/-- the scanner of one of the pattern literals of `check_comments`, by its text: does the pattern match at this position
+    (`prev` = the character before it).  A text the kit does not know matches nowhere (the translator refuses such a literal). -/
+def patternAt (db : Hdr.UDB) (p : Str) (prev : Option Char) (rest : Str) : Bool :=
+  if p = "\\bPACKAGE package\\b".toList then Hdr.wordLit db "PACKAGE package".toList prev rest
+  else if p = "\\bCopyright \\S+ YEAR\\b".toList then Hdr.copyrightYear db prev rest
+  else if p = "\\bTHE PACKAGE'S COPYRIGHT HOLDER\\b".toList then Hdr.wordLit db "THE PACKAGE'S COPYRIGHT HOLDER".toList prev rest
+  else if p = "\\bFIRST AUTHOR\\b".toList then Hdr.wordLit db "FIRST AUTHOR".toList prev rest
+  else if p = "<EMAIL@ADDRESS>".toList then Hdr.plainLit "<EMAIL@ADDRESS>".toList prev rest
+  else if p = "(?<=>), YEAR\\b".toList then Hdr.commaYear db prev rest
+  else false
+
+/-- `re.compile('|'.join(patterns)).search(line)`: is there a position where one of the patterns matches (only the presence of a
+    match is used, so the order of the alternatives is immaterial) -/
+def searchAlt (db : Hdr.UDB) (patterns : List Str) (line : Str) : Option Unit :=
+  if Hdr.anyPos (fun prev rest => patterns.any fun p => patternAt db p prev rest) none line then some () else none
+
+/-- `match.group(1) is None` for the Content-Type regex: group 1 is the optional `text/plain; ` prefix -/
+def ctGroup1 (m : Bool × Str) : Option Unit := if m.1 then some () else none
+
 end I18n.HdrPy
